@@ -22,4 +22,17 @@ PROPS = {
         ],
         "partial": ["opaque clause: C12.opaque_full is refuted for the code as it is; C12.blend_opaque_partial gives the exact deviation; C12.blend_opaque_fixed proves the clause for the repaired function"],
     },
+    "C13": {
+        "technique": "Lean 4 proof (omega kernels, list induction for rows/frames) + exhaustive 2^24 x positions x writers correspondence and libwebp sampler oracle",
+        "level_text": "Theorems: the crate's colour kernel equals libwebp's VP8YUVToR/G/B for every (Y,U,V) (constants regenerated from libwebp's yuv.h, the crate's literals re-extracted from vp8.rs); fill_rgb_row/fill_rgba_row give every pixel x - first of pair, second of pair, odd tail - the kernel of luma x and chroma x/2, for rows of any length; the RGBA writer leaves alpha untouched; fill_rgb/fill_rgba use luma (x,y) and chroma (x/2,y/2) for every width/height. The model equals the real writers on all 2^24 triples x 3 positions x 2 writers (complete on every run) and the real writers equal libwebp's WebPSamplers on the same space.",
+        "level_note": "Trusted: Lean kernel + standard axioms; reading of C `(v & ~YUV_MASK2) == 0` as 0 <= v <= YUV_MASK2; the tie to the Rust code is exhaustive differential execution; libwebp's sampler (possibly its SSE2 variant) is the executable reference.",
+        "design_ref": "DESIGN.md section 4, C13",
+        "trusted_base": COMMON_TB + [
+            "modelled, not verified: vp8.rs mulhi, clip, Frame::fill_rgb_row, fill_rgba_row, fill_rgb, fill_rgba as Yuv.* over lists (domain: buffer length = bpp*width*height, plane sizes as Frame allocates them)",
+            "specification: libwebp src/dsp/yuv.h (MultHi, VP8Clip8, VP8YUVToR/G/B) with constants regenerated from the header by tools/gen_tables.py; executable cross-check against libwebp's WebPSamplers[MODE_RGB/MODE_RGBA] on all 2^24 triples",
+        ],
+        "assumptions": [
+            "plane and buffer lengths as produced by Vp8Decoder and checked by read_image (ybuf = w*h, chroma = ceil(w/2)*ceil(h/2), buf = bpp*w*h)",
+        ],
+    },
 }
